@@ -128,7 +128,7 @@ func runLargeOnce(c LargeCase, bound time.Duration) (v kit.Verdict, slow bool) {
 }
 
 var propLargeBlocks = &kit.Prop[LargeCase]{
-	ID: "C08", Name: "large-blocks",
+	ID: "C08", Name: "large-blocks", Journal: true,
 	Rule: "ALL header blocks whose incompressible field value is within +-12 octets of the receiver's maximum frame size (nothing announced / 20 000), with and without a priority section and END_STREAM, either direction, followed by a small block, plus blocks of 20 000 / 40 000 / 100 000 octets written while the receiving client stalls mid-block and uploads DATA (the relay owes it WINDOW_UPDATEs); the receiver must get the same fields, flags and priority, in frames it would accept (none above the maximum it announced, nothing between HEADERS and its CONTINUATIONs), and stay in HPACK step; non-trivial = every case (the relay must continue the block over several frames)",
 	Run:  runLarge,
 	Classes: func(c LargeCase) []string {
